@@ -488,6 +488,42 @@ def check_C01(tier, seed):
     return finish(rep)
 
 
+def check_C10(tier, seed):
+    rep = Report("C10", tier, seed)
+    rng = random.Random(seed)
+    quick = tier == "quick"
+    cases = []
+    for mode in ("glam", "rt"):
+        r = run_mc("MC_Layout.tla", "MC_Layout.cfg", workers=8, consts={"Mode": '"%s"' % mode}, tag="layout10_" + mode)
+        rep.add_mc("MC_Layout(%s)" % mode, r, "glam-representable members: pairs over the glam leaf table, arrays, arrays of arrays, nested structs, runtime arrays")
+        ex = r.cases if not quick else r.cases[::2]
+        for i, e in enumerate(ex):
+            S = e["S"]
+            cases.append({"id": "enc-%s-%04d" % (mode, i), "family": "encase-" + mode, "S": S, "opts": F.opts(enc=True, mv="glam", bmv=(i % 2 == 0))})
+    # Inner additionally bound as a uniform: the uniform writer is exercised too
+    for c in cases:
+        for g in c["S"]["globals"]:
+            if g["name"] == "inner":
+                g["space"] = "uniform"
+    # members with explicit @align / @size (encase derives carry no matching attribute), f64 members
+    V3 = {"k": "vec", "n": 3, "s": "f32"}
+    F32 = {"k": "scalar", "s": "f32"}
+    special = [
+        ("attrs-0", [{"name": "a", "ty": F32}, {"name": "b", "ty": F32, "align": 16}, {"name": "c", "ty": F32, "size": 16}, {"name": "d", "ty": V3}, {"name": "e", "ty": F32}]),
+        ("attrs-1", [{"name": "a", "ty": V3, "size": 32}, {"name": "b", "ty": F32}]),
+        ("f64-0", [{"name": "a", "ty": {"k": "scalar", "s": "f64"}}, {"name": "b", "ty": {"k": "vec", "n": 3, "s": "f64"}}]),
+    ]
+    for name, mem in special:
+        S = {"structs": [{"name": "Data", "members": mem}], "globals": [{"name": "data", "space": "storage_r", "group": "0", "binding": "0", "ty": {"k": "struct", "name": "Data"}}],
+             "consts": [], "overrides": [], "functions": [], "entries": [{"name": "main", "stage": "compute", "params": [], "wg": ["1"], "body": [{"k": "access", "g": "data", "how": "load"}]}]}
+        cases.append({"id": "enc-" + name, "family": "encase-special", "S": S, "opts": F.opts(enc=True, mv="glam")})
+    for i in range(30 if quick else 600):
+        S, has_rt = F.role_shader(rng, big_arrays=False)
+        cases.append({"id": "enc-role-%04d" % i, "family": "encase-roles", "S": S, "opts": F.opts(enc=True, mv="glam", bmv=(i % 2 == 0))})
+    compiled_and_judge(rep, "C10", cases, "encase", "shim", {"encase"}, keep=["structs"])
+    return finish(rep)
+
+
 def check_C05(tier, seed):
     import compiled
     quick = tier == "quick"
@@ -696,4 +732,4 @@ MEMO = True
 # Does the type closure return early on a type it has already inserted? (the code does since the C20 fix)
 EARLY = True
 
-CHECKS = {"C11": check_C11, "C03": check_C03, "C08": check_C08, "C20": check_C20, "C13": check_C13, "C09": check_C09, "C17": check_C17, "C18": check_C18, "C19": check_C19, "C06": check_C06, "C04": check_C04, "C14": check_C14, "C07": check_C07, "C12": check_C12, "C15": check_C15, "C16": check_C16, "C05": check_C05, "C01": check_C01}
+CHECKS = {"C11": check_C11, "C03": check_C03, "C08": check_C08, "C20": check_C20, "C13": check_C13, "C09": check_C09, "C17": check_C17, "C18": check_C18, "C19": check_C19, "C06": check_C06, "C04": check_C04, "C14": check_C14, "C07": check_C07, "C12": check_C12, "C15": check_C15, "C16": check_C16, "C05": check_C05, "C01": check_C01, "C10": check_C10}
